@@ -20,7 +20,7 @@ import (
 const c19Rule = "case = file-backed segment (small / block families, built or merged) + a sequence of 3..10 read calls (dictionary enumeration, postings walk, stored visit, doc-value visit with one retained reader, " +
 	"DocsMatchingTerms, stats, persist, merge as input); inside each case EVERY index k of the storage read from which all reads fail is enumerated, k = 0..(reads of the fault-free run; beyond 300 reads: first 120, last 20 and a stride), each on a freshly loaded segment " +
 	"(walks through every 'which caches are warm' state); oracle = every call returns (watchdog + goroutine dump: blocked in Mutex.Lock under an ice frame = violation, anything else = inconclusive), a call that saw a failing " +
-	"read yields an error, an empty result or the fault-free result (never a different non-empty result), a call that saw none is correct, no panic; non-trivial = the fault hits after >=1 successful read and >=1 call follows " +
+	"read yields an error, an empty result or the fault-free result (never a different non-empty result), a call that saw none is correct, no panic - also when the caller keeps calling Next on an iterator that returned an error; non-trivial = the fault hits after >=1 successful read and >=1 call follows " +
 	"the first failing call; distinct = hash of case text + call sequence"
 
 type rop struct {
@@ -88,9 +88,34 @@ func (o rop) run(env *ropEnv) (res string, err error) {
 			if err != nil {
 				return err
 			}
-			ps, err := WalkPostings(pl, true, true, true)
+			it, err := pl.Iterator(true, true, true, nil)
 			if err != nil {
 				return err
+			}
+			var ps []XPosting
+			var firstErr error
+			for n := 0; n < 1<<22; n++ {
+				p, err := it.Next()
+				if err != nil {
+					if firstErr == nil {
+						firstErr = err
+					}
+					// a caller may retry: the iterator must keep returning (an error, nil or a
+					// posting), never panic, after a failed storage read
+					if n > len(ps)+3 {
+						break
+					}
+					continue
+				}
+				if p == nil {
+					break
+				}
+				if firstErr == nil {
+					ps = append(ps, XPosting{Doc: p.Number(), Freq: p.Frequency(), Norm: float32(p.Norm()), Locs: copyLocs(p.Locations())})
+				}
+			}
+			if firstErr != nil {
+				return firstErr
 			}
 			if len(ps) > 0 {
 				fmt.Fprintf(&sb, "%v", ps)
